@@ -89,6 +89,7 @@ def cases(tier, seed):
             v = [None, None]
             v[lv] = lay
             variants.append(v)
+    variants.append([{"files": [[0], [2, 1]], "nums": [1, 3]}, {"files": [[1], [0], [2]], "nums": [7, 2, 100000]}])
     for vi, lay in enumerate(variants):
         d = dict(m)
         d.update(geo)
